@@ -18,10 +18,10 @@ def run(ctx):
            "rule": "all 1,114,112 code points (plus 8192 above the range): toString vs a reference UTF-8 encoder, fromString inverse, length, isValid, truncated copies; "
                    "every byte string of length <= 3 and of length 4..%d over the class alphabet {00 41 7F 80 BF C0 C2 DF E0 EF F0 F4 F7 F8 FF} in an exactly sized heap "
                    "block (length/isValid/fromString; decoded value and length of well-formed first sequences vs a strict reference decoder); integer conversions for "
-                   "all values -32768..65535, +-2^k, +-2^k+-1 and type limits (text vs printf, parse back); fromHex for all inputs <= 2 bytes; fromBase64: "
+                   "all values -32768..65535, +-2^k, +-2^k+-1 and type limits (text vs printf, parse back); fromHex for all inputs <= 2 bytes and every length 3..300 with three contents; fromBase64: "
                    "decode(reference encode(b)) == b for all b of length <= 2 and length 3..6 over {00 3E 3F FB FF 'A'}, every 4-symbol string over 20 symbols and every "
                    "8-symbol string over %d symbols incl. bytes >= 0x80, every byte value at every position of two well-formed groups and every pair of byte values in the "
-                   "last two positions, under ASan + bounds sanitizer" % (5 if q else 6, 6 if q else 9),
+                   "last two positions, every string of 0..9 symbols over {Q = - /} and runs of 10..70 valid symbols with six tails (every input length, not only whole groups), under ASan + bounds sanitizer" % (5 if q else 6, 6 if q else 9),
            "exhaustive": True}
     return ctx.finish("exploration", cov, ["surrogate code points are encoded as three bytes (as the library documents)",
                                           "decoder results for malformed / overlong sequences are not judged, only memory safety"], tags=["C18"])
